@@ -20,7 +20,7 @@ CFG = {
                   "DA1, Suspend and Resume write only baseline or advertised vocabulary; width_method; caps_exact / caps_sound / "
                   "reply_notices_exact over the start-up LTS (the loop of New running concurrently with the model of handleSequence): for "
                   "every reply stream, order, interleaving, queue capacity and probe outcome, each capability flag is set iff a reply "
-                  "advertising it arrived no later than the first DA1 reply, and every stream has a complete run attaining it (startup_completes, caps_exact_attained, caps_exact_attained_probe; facts_* pin the loop, the probe, applyQuirks, every write of "
+                  "advertising it arrived no later than the first DA1 reply, and every stream has a complete run attaining it (startup_completes, caps_exact_attained, caps_exact_attained_probe; loop_interpreted: the loop's type switch is executed from the regenerated table; facts_* pin the loop, the probe, applyQuirks, every write of "
                   "the capability record and the Can* accessors to the source); writers_classified / gated_sequences_guarded / "
                   "request_writers_exact / new_image_by_protocol: every one of the ~130 terminal writers of the root package (regenerated "
                   "with its guard stack) is a start-up probe, a gated sequence under a guard testing its capability, an "
